@@ -246,7 +246,7 @@ def unit_roundtrips(ctx):
             back = _call(Entity.unravel, dict(fields).get(typ, ""), BINDING_HTTP_POST)
             if isinstance(back, bytes):
                 back = back.decode("utf-8")
-            okp = [k for k, _ in fields] == want_names and back == msg and (not rs or dict(fields)["RelayState"] == rs.replace("\r\n", "\n").replace("\r", "\n")) and len(p.forms) == 1
+            okp = [k for k, _ in fields] == want_names and back == msg and (not rs or dict(fields)["RelayState"] in (rs, rs.replace("\r\n", "\n").replace("\r", "\n"))) and len(p.forms) == 1   # CR: exact, or normalised as a browser's input-stream preprocessing does (unspecified which)
             if not okp:
                 ctx.oracle_fail("post-roundtrip:%s:%r" % (mname, rs), "POST form round trip differs (fields %s, message equal: %s)" % ([k for k, _ in fields], back == msg),
                                 dict(binding="post", msg=mname, rs=rs, typ=typ))
